@@ -81,10 +81,10 @@ GNext(g, ev) ==
 IsFloor(q, num, den) == q * den <= num /\ num < (q + 1) * den
 IsCeil(q, num, den)  == (q - 1) * den < num /\ num <= q * den
 
-Monitors == {"C05_rate", "C05_round", "C05_preview", "C05_movement", "C05_nonneg", "C05_entitled",
+Monitors == {"C05_rate", "C05_round", "C05_preview", "C05_movement", "C05_nonneg", "C05_entitled", "C05_getters",
              "C01_vault_sum", "C01_vault_fail", "C01_vault_events", "C01_vault_delta",
              "C02_vault_debit", "C02_vault_allow"}
-PropOf(m) == CASE m \in {"C05_rate", "C05_round", "C05_preview", "C05_movement", "C05_nonneg", "C05_entitled"} -> "C05"
+PropOf(m) == CASE m \in {"C05_rate", "C05_round", "C05_preview", "C05_movement", "C05_nonneg", "C05_entitled", "C05_getters"} -> "C05"
                [] m \in {"C02_vault_debit", "C02_vault_allow"} -> "C02"
                [] OTHER -> "C01"
 
@@ -98,6 +98,7 @@ Ante(m, g, ev) ==
     [] m = "C05_movement" -> ok /\ o.op \in VaultOps \cup {"donate"}
     [] m = "C05_nonneg"   -> TRUE
     [] m = "C05_entitled" -> ok /\ o.op \in Leave /\ o.oper # o.own
+    [] m = "C05_getters"  -> TRUE
     [] m = "C01_vault_sum"    -> TRUE
     [] m = "C01_vault_fail"   -> ~ok
     [] m = "C01_vault_events" -> TRUE
@@ -127,6 +128,15 @@ Cons(m, g, ev) ==
     \* nobody takes out value he is not entitled to: an operator other than the owner leaves the vault with
     \* the owner's shares only within the share allowance the owner gave him (in shares, not in assets)
     [] m = "C05_entitled" -> g.sal[o.own][o.oper] >= g.sh[o.own] - obs.sh[o.own]
+    \* the read-only conversions are the exact formula rounded down, total_assets is what the vault holds, and the
+    \* max_* getters never promise an owner more than his shares are worth (ev.q: probes asked after the call)
+    [] m = "C05_getters"  ->
+         LET q == ev.q IN
+         /\ q.ta = A2
+         /\ IsFloor(q.cs1, 1 * (S2 + P), A2 + 1) /\ IsFloor(q.csx, q.px * (S2 + P), A2 + 1)
+         /\ IsFloor(q.ca1, 1 * (A2 + 1), S2 + P) /\ IsFloor(q.cax, q.px * (A2 + 1), S2 + P)
+         /\ \A a \in g.accts : /\ q.maxr[a] >= 0 /\ q.maxr[a] <= obs.sh[a]
+                               /\ q.maxw[a] >= 0 /\ q.maxw[a] * (S2 + P) <= obs.sh[a] * (A2 + 1)
     [] m = "C01_vault_sum"  -> obs.supply = SumOver(obs.sh, g.accts)
     [] m = "C01_vault_fail" -> /\ obs.asset = g.asset /\ obs.sh = g.sh /\ obs.supply = g.supply
                                /\ \A a \in g.accts : \A b \in g.accts :
